@@ -17,7 +17,8 @@ mutex `c.mux`, or one unlocked conn write of the drainer:
 * `send ok` — the drainer's `c.Conn.Write(*pbuf)` outside the lock; `ok = false`: write error ⇒ `CloseWithError`, the
   drainer exits **without resetting the queue** (nothing is ever sent again on this conn).
 * `advance` — the drainer's locked section: closed ⇒ exit; queue exhausted ⇒ reset and exit; else take the next slot.
-* `close` — `CloseAndClean`: test-and-set of `closed` (queued buffers are freed, slots stay).
+* `close` — `CloseAndClean`: test-and-set of `closed` (queued buffers are freed, slots stay) and `c.Conn.Close()`:
+  every later conn write fails (`dead`).
 
 A frame is `(call id, fragment index)`; call ids are handed out by the model (`nextId`), so they are distinct.
 Ghost state: `wire` (frames the conn accepted, in order), `acc` (frames ever appended to the queue / handed to the
@@ -125,7 +126,7 @@ def step (g : Cfg) (s : St) : Act → Option St
   | .write n errAt => if n = 0 then none else some (stepWrite g s n errAt)
   | .send ok => stepSend s ok
   | .advance => stepAdvance s
-  | .close => some { s with closed := true }
+  | .close => some { s with closed := true, dead := true }   -- CloseAndClean also closes the underlying conn
 
 def run (g : Cfg) : St → List Act → St
   | s, [] => s
